@@ -1071,9 +1071,15 @@ func (g *semGen) fillService(di *defInfo, s *Service) {
 			if len(excs) > 0 && r.Chance(1, 2) {
 				ne := r.Range(1, 2)
 				eid := int64(0)
+				usedExc := map[Def]bool{}
 				for k := 0; k < ne; k++ {
 					eid += int64(r.Range(1, 3))
 					e := excs[r.Intn(len(excs))]
+					// the response helpers tell exceptions apart by type: one entry per type
+					if usedExc[e.di.def] {
+						continue
+					}
+					usedExc[e.di.def] = true
 					fn.Throws = append(fn.Throws, &Field{Name: g.name("exc"), ID: eid, IDLit: strconv.FormatInt(eid, 10), Req: []Req{ReqUnspecified, ReqOptional}[r.Intn(2)],
 						Type: &TypeRef{Kind: TNamed, Name: e.qual + e.di.def.DefName(), Target: e.di.def, TFile: e.di.file}})
 				}
@@ -1179,4 +1185,244 @@ func (g *semGen) twins() {
 			}
 		}
 	}
+}
+
+// FixNames rewrites every reference (type names, constant references, enum
+// item references, service parents) from the definitions they are bound to,
+// after definitions, fields or files have been renamed.
+func (p *Program) FixNames() {
+	fileOf := map[Def]*File{}
+	for _, f := range p.Files {
+		for _, d := range f.Defs {
+			fileOf[d] = f
+		}
+	}
+	for _, f := range p.Files {
+		// include paths
+		for _, h := range f.Headers {
+			if h.Kind == "include" && h.Target != nil {
+				rel := relPath(path.Dir(f.Path), h.Target.Path)
+				if strings.HasPrefix(h.Path, "./") && !strings.HasPrefix(rel, "../") {
+					rel = "./" + rel
+				}
+				h.Path = rel
+			}
+		}
+		qual := func(tf *File) string {
+			if tf == nil || tf == f {
+				return ""
+			}
+			return tf.ModuleName() + "."
+		}
+		var fixT func(t *TypeRef)
+		fixT = func(t *TypeRef) {
+			if t == nil {
+				return
+			}
+			if t.Kind == TNamed && t.Target != nil {
+				t.TFile = fileOf[t.Target]
+				t.Name = qual(t.TFile) + t.Target.DefName()
+			}
+			fixT(t.Key)
+			fixT(t.Elem)
+		}
+		var fixC func(c *Const)
+		fixC = func(c *Const) {
+			if c == nil {
+				return
+			}
+			if c.Kind == CRef {
+				switch {
+				case c.RefConst != nil:
+					c.Ref = qual(fileOf[c.RefConst]) + c.RefConst.Name
+				case c.RefItem != nil && c.RefEnum != nil:
+					c.Ref = qual(fileOf[c.RefEnum]) + c.RefEnum.Name + "." + c.RefItem.Name
+				}
+			}
+			for _, it := range c.Items {
+				fixC(it)
+			}
+		}
+		fixF := func(fs []*Field) {
+			for _, fl := range fs {
+				fixT(fl.Type)
+				fixC(fl.Default)
+			}
+		}
+		for _, d := range f.Defs {
+			switch d := d.(type) {
+			case *Typedef:
+				fixT(d.Type)
+			case *Struct:
+				fixF(d.Fields)
+			case *Constant:
+				fixT(d.Type)
+				fixC(d.Value)
+			case *Service:
+				if d.ParentSvc != nil {
+					d.Parent = qual(fileOf[d.ParentSvc]) + d.ParentSvc.Name
+				}
+				for _, fn := range d.Funcs {
+					fixT(fn.Return)
+					fixF(fn.Params)
+					fixF(fn.Throws)
+				}
+			}
+		}
+	}
+}
+
+// struct-literal keys name fields: renaming a field must rename those keys.
+func (p *Program) renameFieldKeys(s *Struct, old, nw string) {
+	var fixC func(c *Const, t *TypeRef)
+	fixC = func(c *Const, t *TypeRef) {
+		if c == nil || t == nil {
+			return
+		}
+		if c.Kind == CRef {
+			return
+		}
+		rt := t.Root()
+		if rt == nil {
+			return
+		}
+		switch rt.Kind {
+		case TList, TSet:
+			for _, it := range c.Items {
+				fixC(it, rt.Elem)
+			}
+		case TMap:
+			for i := 0; i+1 < len(c.Items); i += 2 {
+				fixC(c.Items[i], rt.Key)
+				fixC(c.Items[i+1], rt.Elem)
+			}
+		case TNamed:
+			if st, ok := rt.Target.(*Struct); ok && c.Kind == CMap {
+				for i := 0; i+1 < len(c.Items); i += 2 {
+					if st == s && c.Items[i].Str == old {
+						c.Items[i].Str = nw
+					}
+					for _, fl := range st.Fields {
+						if fl.Name == c.Items[i].Str || (st == s && fl.Name == old && c.Items[i].Str == nw) {
+							fixC(c.Items[i+1], fl.Type)
+						}
+					}
+				}
+			}
+		}
+	}
+	for _, f := range p.Files {
+		for _, d := range f.Defs {
+			switch d := d.(type) {
+			case *Constant:
+				fixC(d.Value, d.Type)
+			case *Struct:
+				for _, fl := range d.Fields {
+					fixC(fl.Default, fl.Type)
+				}
+			}
+		}
+	}
+}
+
+// HostileNames are identifiers that are legal Thrift but stress the mapping to
+// Go: keywords, predeclared names, initialisms, SCREAMING_CASE, names of
+// generated methods and helpers.
+var HostileNames = []string{"type", "func", "range", "select", "chan", "go", "defer", "map_", "interface_", "var_x", "string_", "error", "nil_", "len", "init", "main", "iota", "true_", "int", "float64", "byte_", "rune",
+	"id", "ID", "Id", "url", "URL", "http_api", "userId", "user_id", "USER_ID", "HTTPServer", "xmlHttpRequest", "uuid", "UUID", "Uuid",
+	"ToWire", "FromWire", "String", "Equals", "Encode", "Decode", "Error", "ErrorName", "Ptr", "MarshalLogObject", "MarshalText", "UnmarshalText", "MarshalJSON", "UnmarshalJSON",
+	"GetValue", "IsSetValue", "Value", "value", "get_value", "is_set_value", "Values", "E_Values", "Default_S", "Default", "Helper", "Args", "Result", "ThriftModule",
+	"A_B", "a_b", "AB", "a__b", "_a", "a_", "a1", "A1_", "x", "X", "v", "w", "sw", "sr", "err", "fmt", "wire", "stream", "errors", "strings", "zapcore", "ptr", "math", "base64", "bytes", "json", "strconv", "thriftreflect", "multierr"}
+
+// MakeHostile renames a random subset of definitions, fields, enum items,
+// functions, parameters and files to hostile names (keeping Thrift-level
+// uniqueness), so that only the Go mapping is under stress.
+func MakeHostile(p *Program, r *core.Rand) []string {
+	var log []string
+	pick := func() string { return HostileNames[r.Intn(len(HostileNames))] }
+	for _, f := range p.Files {
+		used := map[string]bool{}
+		for _, d := range f.Defs {
+			used[d.DefName()] = true
+		}
+		for _, h := range f.Headers {
+			if h.Target != nil {
+				used[h.Target.ModuleName()] = true
+			}
+		}
+		for _, d := range f.Defs {
+			if !r.Chance(1, 3) {
+				continue
+			}
+			n := pick()
+			if IsReserved(n) || used[n] {
+				continue
+			}
+			used[n] = true
+			log = append(log, fmt.Sprintf("%s: %s -> %s", f.Path, d.DefName(), n))
+			switch d := d.(type) {
+			case *Typedef:
+				d.Name = n
+			case *Enum:
+				d.Name = n
+			case *Struct:
+				d.Name = n
+			case *Constant:
+				d.Name = n
+			case *Service:
+				d.Name = n
+			}
+		}
+		for _, d := range f.Defs {
+			switch d := d.(type) {
+			case *Struct:
+				fu := map[string]bool{}
+				for _, fl := range d.Fields {
+					fu[fl.Name] = true
+				}
+				for _, fl := range d.Fields {
+					if n := pick(); r.Chance(1, 3) && !IsReserved(n) && !fu[n] {
+						fu[n] = true
+						log = append(log, fmt.Sprintf("%s: %s.%s -> %s", f.Path, d.Name, fl.Name, n))
+						p.renameFieldKeys(d, fl.Name, n)
+						fl.Name = n
+					}
+				}
+			case *Enum:
+				iu := map[string]bool{}
+				for _, it := range d.Items {
+					iu[strings.ToLower(it.Name)] = true
+				}
+				for _, it := range d.Items {
+					if n := pick(); r.Chance(1, 3) && !IsReserved(n) && !iu[strings.ToLower(n)] {
+						iu[strings.ToLower(n)] = true
+						it.Name = n
+					}
+				}
+			case *Service:
+				fu := map[string]bool{}
+				for _, fn := range d.Funcs {
+					fu[strings.ToLower(fn.Name)] = true
+				}
+				for _, fn := range d.Funcs {
+					if n := pick(); r.Chance(1, 3) && !IsReserved(n) && !fu[strings.ToLower(n)] {
+						fu[strings.ToLower(n)] = true
+						fn.Name = n
+					}
+					pu := map[string]bool{}
+					for _, a := range append(append([]*Field{}, fn.Params...), fn.Throws...) {
+						pu[a.Name] = true
+					}
+					for _, a := range append(append([]*Field{}, fn.Params...), fn.Throws...) {
+						if n := pick(); r.Chance(1, 4) && !IsReserved(n) && !pu[n] {
+							pu[n] = true
+							a.Name = n
+						}
+					}
+				}
+			}
+		}
+	}
+	p.FixNames()
+	return log
 }
